@@ -42,6 +42,10 @@ def check_fixed_point(ctx, backend, p, touch=False):
     except ValueError:
         ctx.case(False, label="skipped:unprintable(C19)")
         return
+    if u._netloc and not (u.raw_host or ""):
+        # an authority with an empty host (e.g. produced by join() with an arbitrary '//...' reference): not "syntactically valid host"
+        ctx.case(False, label="skipped:empty-host-authority")
+        return
     ctor = p["ctor"]
     nontrivial = len(p.get("ops", ())) > 0 or ctor[0] != "str" or s != ctor[1]
     ctx.case(nontrivial, label="fixed-point", key=(backend, json.dumps(jsonable(p), sort_keys=True)))
